@@ -1181,6 +1181,11 @@ theorem step_refines {m : St} {sp : Spec} {op : Op} (hw : TWf m.d.tab) (hr : Rel
   | emitNone h => exact refines_emitNone hw hr hs
   | hash msg h => exact refines_hash hw hr hs
   | hashFrag frags h => exact refines_hashFrag hw hr hs
+  | hashNone =>
+    refine ⟨sp, ?_, ?_, ?_⟩
+    · simp [step, Spec.step, nestedCall]
+    · simp only [step]; exact ⟨hr.live, hr.fb, hr.dflt, hr.next, hr.bi⟩
+    · simp only [step]; exact hw
   | emitCmd msg h => exact refines_emitCmd hw hr hs
   | reserve w => exact refines_reserve hw hr hs
   | fini => exact refines_fini hw hr hs
